@@ -905,7 +905,7 @@ func init() {
 	core.Register(&core.Property{
 		ID:    "C20",
 		Level: "exploration",
-		Rule: "case = one scenario (queued blocks incl. a reorg / import of a wallet with history while blocks arrive / removal while blocks and a reorg arrive / import and removal queued together / an import whose first rescan round fails (node database error) and is retried / a removal one of whose commits fails and is retried; thorough adds a >1000-block two-batch import and a >20 000-credit multi-round removal) or a batch of random stops. " +
+		Rule: "case = one scenario (queued blocks incl. a reorg / import of a wallet with history while blocks arrive / removal while blocks and a reorg arrive / import and removal queued together / an import whose first rescan round fails (node database error) and is retried / a removal one of whose commits fails and is retried; thorough adds a >1000-block two-batch import and a >20 000-credit multi-round removal) or a batch of random stops, or runs in which the LevelDB store under the running wallet goes read-only (every later commit fails inside the wallet's database layer): blocks keep arriving, an import or removal must be refused, the follower must keep consuming announcements, Stop must return and a restart catch up. " +
 			"A dry run counts the passes of the 11 yield points of follower and worker; for every (point, occurrence) [quick: ≤8 occurrences per point] the goroutine is parked there and (A) Stop is issued and the goroutine released once Stop has closed quit, (B) released 3 ms later, (H, odd occurrences) released without a stop after all blocks are queued. " +
 			"Oracles: Stop returns — watchdog 25 s, its expiry is a violation only with two identical goroutine dumps in which every wallet goroutine is blocked in a channel/lock/wait-group operation, otherwise inconclusive; the database can be re-opened in-process; no goroutine died; after restart (H: without) SyncedTo reaches the node's tip, the import is ready and the removed wallet gone. " +
 			"Random stops: Stop after a PRNG-chosen number of point passes with 0–1.5 ms delays at 35 % of the passes, GOMAXPROCS ∈ {1,2,4,16}. distinct_nontrivial = distinct (scenario, point, occurrence, variant) actually parked + distinct random stops",
